@@ -133,6 +133,31 @@ def run_one(variant, spec, rg, stats):
                     if owner[a] != owner[b]:
                         bonded.add(frozenset((owner[a], owner[b])))
         requested = {frozenset(e) for e in rg["edges"]}
+        # the program's own view: gen_params warned about no missing link for a residue edge -> the file must carry that
+        # edge, unless the only thing joining the two residues (per the reference) is something an .itp cannot express as a
+        # bond ([ edges ]-only links, pairs, ...)
+        import re as _re
+        warned = set()
+        for lvl, msg, _ in r["logs"]:
+            m = _re.search(r"Missing a link between residue (\S+) (\S+) and residue (\S+) (\S+)\.", msg)
+            if m and lvl == "WARNING":
+                warned.add(frozenset((int(m.group(1)), int(m.group(3)))))
+        ref_atom_edges = set()
+        for e in exp["edges"]:
+            e = tuple(e)
+            if len(e) == 2 and owner[e[0]] != owner[e[1]]:
+                ref_atom_edges.add(frozenset((owner[e[0]], owner[e[1]])))
+        resid_nodes = {}
+        for k in mm.nodes:
+            resid_nodes[mm.nodes[k].get("resid")] = k
+        file_edges = {frozenset((mm.nodes[a].get("resid"), mm.nodes[b].get("resid"))) for a, b in mm.edges}
+        for e in requested:
+            a, b = tuple(e)
+            re_ = frozenset((rg["resids"][a], rg["resids"][b]))
+            non_bond_only = e in ref_atom_edges and e not in bonded
+            if re_ not in warned and not non_bond_only and re_ not in file_edges:
+                bad("no-warning-implies-edge-in-file", f"residues {sorted(re_)}: no missing-link warning, but the residue graph read back has no edge there "
+                    f"(edges in file {sorted(map(sorted, file_edges))})")
         if not exp["missing"] and bonded == requested:
             stats["residue_graph_compared"] = stats.get("residue_graph_compared", 0) + 1
             nodes_b = list(mm.nodes)
